@@ -74,7 +74,7 @@ theorem C18_put_refines_partial (H : Hashes) (dl : Nat) {s : State} (hi : Inv s)
 
 /-- put_object of a (non-directory) key whose side files — the metadata and the checksum record, named after the encoded
     bucket and key — would not fit a file name: nothing is written, in any state and for any body, and the request is refused;
-    in an existing bucket, for a key the backend maps into it, with `KeyTooLongError` (4f3e079; before, the object file was
+    in an existing bucket, for a key the backend maps into it, with `KeyTooLongError` (c3dcb24; before, the object file was
     written and the request then failed with `InternalError`, the store changed by a request that failed). The store accepts
     such keys: they stay outside `PutOk` (fs:long-key-internal-error stays open, narrowed for put_object to the refusal) -/
 theorem C18_put_long_key_changes_nothing (H : Hashes) (dl : Nat) (s : State) {b k c : Bytes} {md : Option Meta}
@@ -208,7 +208,7 @@ theorem C18_create_upload_refines_partial (H : Hashes) (dl : Nat) {s : State} (h
     issued, completed, aborted, or an id that is no UUID — is `NoSuchUpload` on both sides (4609ab3; before:
     fs:unknown-upload-code); a part number outside 1..10000 is `InvalidArgument` on both sides (205d9a8; before, numbers below
     1 were accepted: fs:part-number-not-validated); an upload exists only under the bucket and key it was created for: under
-    any other it is `NoSuchUpload` on both sides, for the creator and for anybody else (6bf591c; before, the upload id was
+    any other it is `NoSuchUpload` on both sides, for the creator and for anybody else (41e1cf2; before, the upload id was
     accepted under any bucket and key: fs:upload-not-bound-to-key). Full: every state satisfying `Inv`, every request -/
 theorem C18_upload_part_refines (H : Hashes) (dl : Nat) {s : State} (hi : Inv s) {who : Who} {b k : Bytes}
     {u : UploadRef} {n : Int} {c : Bytes} :
@@ -222,7 +222,7 @@ theorem C18_upload_part_refines (H : Hashes) (dl : Nat) {s : State} (hi : Inv s)
     backend's reader accepts exactly what the store accepts, `copyRange_eq`; before, open-ended ranges and ranges beyond the
     end were accepted: fs:part-copy-range-unchecked); a part number outside 1..10000 is `InvalidArgument` (205d9a8; before
     it was not checked: fs:part-number-not-validated), an upload that does not exist — at all, or under this bucket and key
-    (6bf591c; before: fs:upload-not-bound-to-key) — `NoSuchUpload`, on both sides. The predicate only asks for comparable
+    (41e1cf2; before: fs:upload-not-bound-to-key) — `NoSuchUpload`, on both sides. The predicate only asks for comparable
     source names and sizes -/
 theorem C18_upload_part_copy_refines_partial (H : Hashes) (dl : Nat) {s : State} (hi : Inv s) {who : Who} {b k : Bytes}
     {u : UploadRef} {n : Int} {sb sk : Bytes} {range : Option Bytes} (hg : UploadPartCopyOk s b k u n sb sk range) :
@@ -236,7 +236,7 @@ theorem C18_upload_part_copy_refines_partial (H : Hashes) (dl : Nat) {s : State}
     order is part of the answer on both sides: the code sorts the parts it read from the directory (764f144; before, it
     returned them in directory-read order and the comparison with the real code had to ignore the order:
     fs:list-parts-unordered); of an upload that does not exist: `NoSuchUpload` on both sides (4609ab3; before, an empty
-    list: fs:list-parts-unknown-upload) — also of an upload that exists under another bucket or key (6bf591c; before, its
+    list: fs:list-parts-unknown-upload) — also of an upload that exists under another bucket or key (41e1cf2; before, its
     parts were listed: fs:upload-not-bound-to-key). Full: every state satisfying `Inv`, every request -/
 theorem C18_list_parts_refines (H : Hashes) (dl : Nat) {s : State} (hi : Inv s) {who : Who} {b k : Bytes}
     {u : UploadRef} :
@@ -266,7 +266,7 @@ theorem C18_list_parts_exact (parts : List (Int × Bytes)) (hnd : keysNodup part
 
 /-- complete_multipart_upload: the object becomes the concatenation of the listed parts in part order with the upload's
     metadata, the upload is gone; an identity other than the creator gets `AccessDenied` and changes nothing; an upload that
-    does not exist — at all, or under this bucket and key (6bf591c; before: fs:upload-not-bound-to-key) — is `NoSuchUpload`
+    does not exist — at all, or under this bucket and key (41e1cf2; before: fs:upload-not-bound-to-key) — is `NoSuchUpload`
     on both sides (4609ab3); a complete by
     the owner that names a part that was never uploaded (`InvalidPart`) or whose parts other than the last are below the
     minimum size (`EntityTooSmall`) is answered alike and changes nothing — the upload stays and can be completed later
@@ -304,7 +304,7 @@ theorem C18_complete_concatenates (id : Nat) (l : List (Option Int)) (cnt : Nat)
       partTooSmall_numbered _ cs cnt (by omega), eraseParts_erased id _ parts⟩
 
 /-- abort_multipart_upload: only by the creator; the upload is gone; of an upload that does not exist — at all, or under this
-    bucket and key (6bf591c; before, an upload could be aborted under any key: fs:upload-not-bound-to-key) — `NoSuchUpload` on
+    bucket and key (41e1cf2; before, an upload could be aborted under any key: fs:upload-not-bound-to-key) — `NoSuchUpload` on
     both sides and nothing changes. Full: every state satisfying `Inv`, every request -/
 theorem C18_abort_refines (H : Hashes) (dl : Nat) {s : State} (hi : Inv s) {who : Who} {b k : Bytes}
     {u : UploadRef} :
